@@ -202,6 +202,10 @@ func RunSeq(s *kernel.Sim, prof *Profile) *Env {
 func (e *Env) restart() { e.restartAs("restart", "") }
 
 func (e *Env) restartAs(kind, what string) {
+	e.auditLatched = false
+	e.Sink.mu.Lock()
+	e.Sink.Stream = nil // a new process; what a predecessor left at the end of the log is not judged
+	e.Sink.mu.Unlock()
 	lax := false
 	if e.Prof.LaxModes && e.T.Bool(1, 3) {
 		// an operator restored the file from a backup with a lax mode
@@ -396,6 +400,18 @@ func (e *Env) step(st *seqState, c *Caller, op model.Op, cor *Corruption, whoFau
 		}
 	}
 
+	// ---- after an audit failure without restart ----
+	if e.auditLatched && !ctx.AuditFail {
+		if res.Class == model.OK {
+			e.auditLatched = false // the writer works again
+		} else {
+			if !unchanged {
+				e.fail("audit-failclosed", "%s: failed call changed the database file while the audit writer was broken", desc)
+			}
+			return
+		}
+	}
+
 	// ---- C06: audit expectations ----
 	e.judgeAudit(ctx, mop, res, recs, allowed, desc)
 
@@ -435,6 +451,14 @@ func (e *Env) step(st *seqState, c *Caller, op model.Op, cor *Corruption, whoFau
 		// the persisted state.
 		if got, err := e.Observe(); err == nil && got != e.Model.DumpVisible() {
 			e.fail("audit-failclosed", "%s: audit record could not be written but the served state changed:\n got: %s\nwant: %s", desc, got, e.Model.DumpVisible())
+		}
+		if e.T.Bool(1, 2) {
+			// keep the process running: its audit writer may stay broken
+			// (every later call then fails closed) or may recover - in which
+			// case the log must still hold a whole line per disclosed value
+			e.auditLatched = true
+			e.S.Probe("audit-failure-no-restart")
+			return
 		}
 		out := e.KEK.Outage
 		e.KEK.Outage = false
@@ -564,6 +588,10 @@ func (e *Env) judgeAudit(ctx *OpCtx, mop model.Op, res model.Res, recs []AuditRe
 	for _, r := range recs {
 		if len(r.Data) == 0 || r.Data[len(r.Data)-1] != '\n' || bytes.Count(r.Data, []byte("\n")) != 1 {
 			e.fail("audit", "%s: audit write is not exactly one line: %q", desc, r.Data)
+			return
+		}
+		if r.Torn {
+			e.fail("audit", "%s: the audit record was appended to a torn earlier record, so the log holds no complete line for this call: %q", desc, r.Data)
 			return
 		}
 		var l auditLine
